@@ -540,6 +540,19 @@ fn names_main(in_path: &str, out_path: &str) -> Result<(), String> {
                         }
                     }
                 }
+                // DSL: the tree the generator's own grammar builds from the rendered text, for the model of the lowering
+                if syntax == "dsl" {
+                    if let Some(adef) = case.get("adef") {
+                        let hir = match guarded(|| render(adef, &syntax)) {
+                            Ok(Ok(text)) => guarded(|| super::hir::dump(&text))
+                                .unwrap_or_else(|p| json!({"$parse_error": format!("parser panicked: {p}")})),
+                            _ => Value::Null,
+                        };
+                        if !hir.is_null() {
+                            case.insert("hir".into(), hir);
+                        }
+                    }
+                }
                 writeln!(out, "{}", Value::Object(case)).map_err(|e| format!("write {out_path}: {e}"))?;
             }
             _ => {
